@@ -1794,12 +1794,6 @@ impl JsObject {
             return Some((prop.clone(), false));
         }
 
-        if let Some(ref proto) = self.prototype
-            && let Some((prop, _)) = proto.borrow().get_property_descriptor(key)
-        {
-            return Some((prop, true));
-        }
-
         None
     }
 
